@@ -1,7 +1,6 @@
-import Shuttle.Model.Runtime
+import Shuttle.Lemmas.Runtime
 /-!
 # C09 — the quantum-runtime query never answers False for a kernel that acts
-(soundness theorem: see below; first the registry facts)
 -/
 namespace Shuttle.Props.C09
 open Shuttle Shuttle.Lang
@@ -16,5 +15,66 @@ theorem C09_registry_exact :
     ["gen", "parallel", "device_fn", "reverse", "get_static_trap", "set_loc", "move", "turn_on", "turn_off"].all
       (fun op => !quantumEff op) = true := by
   decide
+
+/-- **Soundness**: if the analysis (as modelled in Model/Runtime.lean, over the regenerated `runtime` registry) answers
+`False` for kernel `main` of a program, then no execution of `main` by the reference evaluator — whatever the
+arguments (first-order values), whatever the spec lookups resolve to, however long it runs — performs a device-visible
+operation: every event is an AOD operation of a tweezer kernel (and a `@move` kernel has none of those either, C17). -/
+theorem C09_sound (fns : List Fn) (look : LookKind → String → Option Val)
+    (hlook : ∀ k n v, look k n = some v → v.fo = true) (main : String) (afuel : Nat)
+    (h : hasQuantumRuntime fns afuel main = .ok false) :
+    ∀ (fuel : Nat) (args : List Val) (v : Val) (evs : List Event), (∀ a ∈ args, a.fo = true) →
+      runKernel fuel ⟨fns, look⟩ main args = .ok (v, evs) → ∀ ev ∈ evs, ev.isOp = true := by
+  intro fuel args v evs hargs hrun
+  have hb : BodyOK fns main := fn_ok fns [] afuel main trivial h
+  unfold runKernel at hrun
+  split at hrun
+  · rename_i v' e1 evs1 h1
+    have := sound_run fns look (fun k n v hv => fo_ok fns v (hlook k n v hv)) fuel [] (.callFn main args []) _ _ _ h1
+      ⟨hb, fun a ha => fo_ok fns a (hargs a ha), by intro p hp; simp at hp⟩ (by intro p hp; simp at hp)
+    simp only [Except.ok.injEq, Prod.mk.injEq] at hrun
+    obtain ⟨rfl, rfl⟩ := hrun
+    exact this.1
+  · cases hrun
+  · cases hrun
+
+/-- the lookups of an architecture spec resolve to first-order values -/
+theorem specLook_fo (s : ArchSpec) : ∀ k n v, specLook s k n = some v → v.fo = true := by
+  intro k n v h
+  cases k <;> simp only [specLook] at h
+  · cases hl : s.layout.staticTraps.lookup n <;> simp [hl] at h; subst h; rfl
+  · cases hl : s.layout.specialGrid.lookup n <;> simp [hl] at h; subst h; rfl
+  · cases hl : s.intC.lookup n <;> simp [hl] at h; subst h; rfl
+  · cases hl : s.floatC.lookup n <;> simp [hl] at h; subst h; rfl
+
+/-- soundness against an architecture spec -/
+theorem C09_sound_spec (fns : List Fn) (s : ArchSpec) (main : String) (afuel : Nat)
+    (h : hasQuantumRuntime fns afuel main = .ok false) (fuel : Nat) (args : List Val) (v : Val) (evs : List Event)
+    (hargs : ∀ a ∈ args, a.fo = true) (hrun : runKernel fuel ⟨fns, specLook s⟩ main args = .ok (v, evs)) :
+    ∀ ev ∈ evs, ev.isOp = true :=
+  C09_sound fns (specLook s) (specLook_fo s) main afuel h fuel args v evs hargs hrun
+
+/-! non-vacuity: a program with a recursive pure helper, a closure and a loop for which the answer is `False`, and the
+same program with a gate in the helper for which it is `True` -/
+
+private def helper (gate : Bool) : Fn :=
+  { name := "sub", params := ["a"],
+    body := (if gate then [Stmt.eff "global_rz" [.lit (.flt 1)]] else []) ++
+      [.ifS (.prim "le" [.var "a", .lit (.int 0)]) [.ret (.lit (.int 0))] [],
+       .assign "r" (.call "sub" [.prim "sub" [.var "a", .lit (.int 1)]]),
+       .ret (.prim "add" [.var "r", .lit (.int 1)])] }
+private def inner : Fn := { name := "inner", params := ["k"], body := [.ret (.prim "mul" [.var "k", .lit (.int 2)])] }
+private def mainFn : Fn :=
+  { name := "main", params := ["n"],
+    body := [.assign "inner" (.lam "inner"),
+             .assign "c" (.lit (.int 0)),
+             .forS "i" (.lit (.int 0)) (.var "n") (.lit (.int 1))
+               [.assign "c" (.prim "add" [.var "c", .callV (.var "inner") [.var "i"]])],
+             .ret (.prim "add" [.var "c", .call "sub" [.var "n"]])] }
+
+example : (hasQuantumRuntime [helper false, inner, mainFn] 50 "main").toOption = some false := by decide +kernel
+example : (hasQuantumRuntime [helper true, inner, mainFn] 50 "main").toOption = some true := by decide +kernel
+example : (runKernel 200 ⟨[helper true, inner, mainFn], fun _ _ => none⟩ "main" [.int 2]).toOption.map (·.2.length) = some 3 := by
+  decide +kernel
 
 end Shuttle.Props.C09
